@@ -543,11 +543,11 @@ class YlRoundTrip(Comp):
         fs = fixed_sets()
         L.append("\t".join(["ylrt", "0", "P:1:*"] + [enc_mod(m) for m in fs[1]]))
         L.append("\t".join(["ylrt", "0", "P:1:*", "P:0:-"] + [enc_mod(m) for m in fs[0]]))
-        for _ in range(self.n(tier, 400, 8000, scale)):
+        for _ in range(self.n(tier, 200, 8000, scale)):
             L.append(line_of("ylrt", 0, add_feature_deps(rng, gen_set(rng), 0.2)))
-        for _ in range(self.n(tier, 200, 4000, scale)):
+        for _ in range(self.n(tier, 100, 4000, scale)):
             L.append(line_of("ylrt", 0, gen_multirev(rng)))
-        for _ in range(self.n(tier, 400, 8000, scale)):
+        for _ in range(self.n(tier, 250, 8000, scale)):
             ms = gen_multirev(rng) if rng.random() < 0.25 else add_feature_deps(rng, gen_set(rng), 0.2)
             L.append("\t".join(["ylrt", "0"] + pre_ops(rng, ms) + [enc_mod(m) for m in ms]))
         return L
@@ -630,4 +630,122 @@ class YlOracle:
             return (None, "content-id is not the requested value")
         if legacy != "1":
             return (None, "legacy modules-state list disagrees with the context")
+        return None
+
+
+# ------------------------------------------------------------------------------------------------
+# the round trip in every variant of the rebuilding context
+# ------------------------------------------------------------------------------------------------
+def x_spec(rng):
+    ropts = 0
+    if rng.random() < 0.65:
+        for bit in (ENABLE_IMP, ALL_IMPL, REF_IMPL, EXPLICIT, NO_YL, PREFER_SD):
+            if rng.random() < 0.3:
+                ropts |= bit
+    entry = rng.choice(["d", "mj", "mx", "pj", "px"])
+    osrc = rng.choice("ccsb")
+    rsrc = rng.choice("ccssb")
+    target = "n" if (rsrc == "s" and rng.random() < 0.5) else "e"
+    return ropts, entry, osrc, rsrc, target
+
+
+class YlxOracle:
+    """C19 on the implementation, every way of rebuilding: options of the rebuilding context (ENABLE_IMP_FEATURES,
+    ALL_IMPLEMENTED, REF_IMPLEMENTED, EXPLICIT_COMPILE, NO_YANGLIBRARY, PREFER_SEARCHDIRS), module texts from the import
+    callback / a search directory / both, ly_ctx_new_yldata / ylmem / ylpath with JSON and XML, into a new context
+    (*ctx == NULL), an existing empty one, or one already holding some of the modules (other feature states, other
+    revisions, implemented or not); module sets with import / augment / deviation dependencies in both list orders,
+    features with if-feature dependencies, enabled sets empty / partial / full.  Expected: the modules the original
+    implements are implemented at the same revision with the same enabled features, every other module of the
+    description is present, the implemented modules compile to the same schema."""
+    name = "yl-variants"
+    driver = "t_yl"
+
+    def gen(self, rng, tier, scale=1.0):
+        L = []
+        # regression of seeded change C19-1 (NULL instead of the empty feature array): ca augments cb, cb has features,
+        # rebuilt with ENABLE_IMP_FEATURES; and the same into a context that already holds cb with all features
+        cb = {"name": "cb", "rev": "2024-02-02", "impl": True, "groups": [[("f1", False), ("f2", False)]], "imports": []}
+        ca = {"name": "ca", "rev": "2024-01-01", "impl": True, "groups": [[]], "imports": [("cb", None)], "ikind": {"cb": "a"}}
+        for entry in ("d", "mj", "mx"):
+            L.append("\t".join(["ylx", "0", "X:%d:%s:c:c:e" % (ENABLE_IMP, entry)] + [enc_mod(m) for m in (ca, cb)]))
+            L.append("\t".join(["ylx", "0", "X:%d:%s:s:s:n" % (ENABLE_IMP, entry)] + [enc_mod(m) for m in (ca, cb)]))
+            L.append("\t".join(["ylx", "0", "X:0:%s:c:c:e" % entry, "P:1:*"] + [enc_mod(m) for m in (ca, cb)]))
+        n = int((12000 if tier == "thorough" else 700) * scale)
+        for _ in range(n):
+            r = rng.random()
+            if r < 0.2:
+                ms = gen_multirev(rng, pinned_only=rng.random() < 0.6)
+            else:
+                ms = gen_set(rng)
+            if rng.random() < 0.7:
+                add_feature_deps(rng, ms)
+            if rng.random() < 0.7:
+                add_dependencies(rng, ms)
+            if rng.random() < 0.15:
+                # full / empty feature sets
+                full = rng.random() < 0.5
+                for m in ms:
+                    if m["impl"]:
+                        m["groups"] = [[(f, full) for f, _ in g] for g in m["groups"]]
+            ropts, entry, osrc, rsrc, target = x_spec(rng)
+            oopts = rng.choice([0, 0, 0, EXPLICIT, ENABLE_IMP, ALL_IMPL, ALL_IMPL | ENABLE_IMP, REF_IMPL])
+            pre = pre_ops(rng, ms) if (target == "e" and rng.random() < 0.45) else []
+            L.append("\t".join(["ylx", str(oopts), "X:%d:%s:%s:%s:%s" % (ropts, entry, osrc, rsrc, target)] + pre +
+                               [enc_mod(m) for m in ms]))
+        return L
+
+    def judge(self, line, out):
+        f = line.split("\t")
+        xs = [x for x in f[2:] if x.startswith("X:")][0].split(":")
+        ropts = int(xs[1])
+        srcs = [dec_mod(x) for x in f[2:] if not x.startswith(("X:", "P:"))]
+        if out in ("E", "Eyl"):
+            return None         # the original context cannot be built from this set (not a round-trip question)
+        if " # " not in out:
+            return (None, "round trip did not complete: %s" % out[-200:])
+        left, right = out.split(" # ")
+        lw, rw = left.split(" "), right.split(" ")
+        if len(lw) != 2 or len(rw) != 4:
+            return (None, "driver answered %r" % out[-200:])
+        valrc, rbrc = lw
+        cdiff, pre, recs_a, recs_b = rw
+        pre_ok = pre != "-" and "0" in pre.split(",")
+        multi = set(m["name"] for m in srcs if len([x for x in srcs if x["name"] == m["name"]]) > 1)
+        loose = set(hexs(n) for m in srcs for n, r in m["imports"] if r is None and n in multi)
+        if valrc != "0":
+            return (None, "the yang-library data are not valid (rc %s)" % valrc)
+        if rbrc != "0":
+            # legitimate: only one revision of a module can be implemented; the populated context, or ALL_/REF_IMPLEMENTED
+            # acting on an import with revision-date, may already have implemented another revision of a listed module
+            if multi and (pre_ok or (ropts & (ALL_IMPL | REF_IMPL))):
+                return None
+            return (None, "rebuilding failed (rc %s)" % rbrc)
+        A, B = parse_records(recs_a), parse_records(recs_b)
+        Am = dict(((r[0], r[1]), r) for r in A)
+        Bm = dict(((r[0], r[1]), r) for r in B)
+        tag = lambda names: "yl-import-only-rev" if (loose and all(n in loose for n in names)) else None
+        for k, r in Am.items():
+            b = Bm.get(k)
+            if r[2] == "1":
+                if b != r:
+                    return (None, "implemented module %s: original %s, rebuilt %s" % (k, r, b))
+            elif b is None:
+                return (tag([k[0]]), "module %s of the description is missing in the rebuilt context" % (k,))
+            elif b[2] == "1":
+                # legitimate: ALL_IMPLEMENTED / REF_IMPLEMENTED of the rebuilding context implement imported modules, and a
+                # module that the populated context had implemented before cannot be made import-only again
+                if not (pre_ok or (ropts & (ALL_IMPL | REF_IMPL))):
+                    return (tag([k[0]]), "import-only module %s is implemented in the rebuilt context" % (k,))
+            elif b != r:
+                return (None, "import-only module %s: original %s, rebuilt %s" % (k, r, b))
+        extra = [k for k in Bm if k not in Am]
+        if extra and not pre_ok:
+            # (modules that the populated context held before stay, whatever the description says)
+            return (tag([k[0] for k in extra]), "rebuilt context has additional modules %s" % extra)
+        if cdiff != "-":
+            # legitimate: additional implemented modules may augment / deviate the listed ones
+            more_impl = [k for k, b in Bm.items() if b[2] == "1" and (k not in Am or Am[k][2] != "1")]
+            if not more_impl:
+                return ("yl-import-only-rev" if loose else None, "compiled modules differ after the round trip: %s" % cdiff)
         return None
